@@ -61,7 +61,7 @@ Qed.
 
 Lemma implicit_tail_len g e vrst r h n v rest :
   implicit_tail dict g e vrst r = HOk h n v rest -> blen r + 4 = n + blen rest /\ v = vrst.
-Proof.
+Proof using dict. clear rejects.
   unfold implicit_tail. intros H. repeat break_match H; try discriminate. injection H as <- <- <- <-. takes. lia.
 Qed.
 
@@ -73,13 +73,13 @@ Qed.
 
 Lemma adaptive_implicit_rest_len g e lo r1 h n v rest :
   adaptive_implicit_rest dict g e lo r1 = HOk h n v rest -> blen r1 + 6 = n + blen rest /\ v = 2.
-Proof.
+Proof using dict. clear rejects.
   unfold adaptive_implicit_rest. intros H. repeat break_match H; try discriminate. injection H as <- <- <- <-. takes. lia.
 Qed.
 
 Lemma adaptive_tail_len g e vrst r h n v rest :
   adaptive_tail dict g e vrst r = HOk h n v rest -> blen r + 4 = n + blen rest.
-Proof.
+Proof using dict. clear rejects.
   unfold adaptive_tail. intros H. repeat break_match H; try discriminate.
   - apply explicit_tail_len in H. lia.
   - apply implicit_tail_len in H. lia.
@@ -90,7 +90,7 @@ Qed.
 
 Lemma decode_header_raw_len kind vrst s h n v rest :
   decode_header_raw dict kind vrst s = HOk h n v rest -> blen s = n + blen rest.
-Proof.
+Proof using dict. clear rejects.
   unfold decode_header_raw, dec_tag. intros H.
   destruct (take 4 s) as [[t r]|] eqn:ET; [|discriminate].
   destruct (kind =? ILE); [apply implicit_tail_len in H; takes; lia|].
@@ -101,7 +101,7 @@ Qed.
 
 Lemma decode_header_raw_n kind vrst s h n v rest :
   decode_header_raw dict kind vrst s = HOk h n v rest -> n = 8 \/ n = 12.
-Proof.
+Proof using dict. clear rejects.
   assert (EL : forall be g e vr vrst r1 h n v rest,
              explicit_length be g e vr vrst r1 = HOk h n v rest -> n = 8 \/ n = 12).
   { unfold explicit_length. intros. repeat break_match H; try discriminate; injection H as <- <- <- <-; auto. }
@@ -141,7 +141,7 @@ Qed.
 
 Lemma dec_header_inv total base kind d h d' :
   Inv total base d -> dec_header dict kind d = DOk h d' -> Inv total base d'.
-Proof.
+Proof using dict. clear rejects.
   unfold dec_header. intros HI H. destruct (decode_header_raw dict kind (d_vrst d) (d_src d)) eqn:E; try discriminate.
   injection H as <- <-. pose proof (decode_header_raw_n _ _ _ _ _ _ _ E).
   apply decode_header_raw_len in E. apply Inv_consume; [exact HI|exact E|lia].
@@ -275,7 +275,7 @@ Lemma next_header_inv total base kind odd st :
   | HR _ => True
   | HCont d => Inv total base d
   end.
-Proof.
+Proof using dict. clear rejects.
   unfold RInv, next_header. intros HI.
   destruct (dec_header dict kind (r_dec st)) eqn:E; auto.
   pose proof (dec_header_inv _ _ _ _ _ _ HI E) as HI'.
@@ -312,7 +312,7 @@ Qed.
 (** * The fuel of [next] suffices: every `continue` has consumed a header *)
 Lemma next_header_cont kind odd st d :
   next_header dict kind odd st = HCont d -> blen (d_src (r_dec st)) = 8 + blen (d_src d) \/ blen (d_src (r_dec st)) = 12 + blen (d_src d).
-Proof.
+Proof using dict. clear rejects.
   unfold next_header, dec_header. intros H.
   destruct (decode_header_raw dict kind (d_vrst (r_dec st)) (d_src (r_dec st))) eqn:E; try discriminate.
   pose proof (decode_header_raw_n _ _ _ _ _ _ _ E) as Hn. apply decode_header_raw_len in E.
